@@ -120,7 +120,7 @@ def build_problem(spec):
                 if p["name"] == "K" and spec["kprior"] == "default":
                     kw = {}
                     if spec["max_K"] is not None:
-                        kw["max_K"] = spec["max_K"] * u.km / u.s
+                        kw["max_K"] = spec["max_K"] * u.Unit(spec.get("max_K_unit", "km/s"))
                     sk = spec["sigma_K0"]
                     pars["K"] = xu.with_unit(FixedCompanionMass("K", P=P, e=e, sigma_K0=sk[0] * u.Unit(sk[1]), P0=spec["P0"][0] * u.Unit(spec["P0"][1]), **kw), u.Unit(sk[1]))
                 else:
@@ -129,11 +129,12 @@ def build_problem(spec):
             prior = JokerPrior(pars=pars, poly_trend=spec["n_poly"], v0_offsets=offs)
     th = spec["theta"]
     smp = JokerSamples(poly_trend=spec["n_poly"], n_offsets=spec["n_off"])
-    smp["P"] = np.array([th["P"]]) * u.day
+    su = spec.get("smp_units", {})  # prior-sample columns may be handed over in any equivalent unit (theta is in day, rad, data unit)
+    smp["P"] = (np.array([th["P"]]) * u.day).to(u.Unit(su.get("P", "d")))
     smp["e"] = np.array([th["e"]]) * u.one
-    smp["omega"] = np.array([th["omega"]]) * u.rad
-    smp["M0"] = np.array([th["M0"]]) * u.rad
-    smp["s"] = np.array([th["s"]]) * du
+    smp["omega"] = (np.array([th["omega"]]) * u.rad).to(u.Unit(su.get("omega", "rad")))
+    smp["M0"] = (np.array([th["M0"]]) * u.rad).to(u.Unit(su.get("M0", "rad")))
+    smp["s"] = (np.array([th["s"]]) * du).to(u.Unit(su.get("s", spec["data_unit"])))
     return data, prior, smp
 
 
@@ -160,7 +161,7 @@ def closed_form(spec, all_data, trend_M, kcol):
         muK = 0.0
         sk = (spec["sigma_K0"][0] * u.Unit(spec["sigma_K0"][1])).to_value(du)
         P0d = (spec["P0"][0] * u.Unit(spec["P0"][1])).to_value(u.day)
-        mk = ((spec["max_K"] if spec["max_K"] is not None else 500.0) * u.km / u.s).to_value(du)
+        mk = ((spec["max_K"] * u.Unit(spec.get("max_K_unit", "km/s"))) if spec["max_K"] is not None else 500.0 * u.km / u.s).to_value(du)
         varK = min(sk**2 * (spec["theta"]["P"] / P0d) ** (-2 / 3) / (1 - spec["theta"]["e"] ** 2), mk**2)
     rest = [conv(p) for p in spec["lin"][1:]]
     offs = [conv(o) for o in spec["offs"]]
